@@ -585,14 +585,14 @@ fn arb_case() -> impl Strategy<Value = Case> {
 pub fn run(ctx: &Ctx) {
     ctx.rule("sessions against a real App with websocket_handler: handler behaviour {recv loop, recv_nonblocking polling loop, send k messages then recv, drop immediately, drop after j messages} x client scripts of text/binary messages (0..70 KiB, 1..5 fragments, pings interleaved between fragments), pings, pongs, ended by a client Close (with/without payload), server drop or abrupt disconnect x Sec-WebSocket-Key {absent, sample, any printable, empty, 200 chars} x delivery {whole, byte-wise, each frame split after k bytes (inside header / extended length / key), random}; oracle: reference handshake accept value, every server byte after the 101 must decode as legal unmasked frames equal to the required sequence (k messages, a Pong with equal payload per Ping, Close for Close, Close on drop), and the handler's received messages must equal the client's messages. Non-trivial = fragmented message with an interleaved control frame, a ping, or a split inside a frame header; distinct by case");
     ctx.assume("the reference client waits for the 101 before sending frames (as RFC 6455 requires); frames possibly unprocessed when the client vanishes abruptly are compared as a prefix only");
-    let cases = ctx.tier.pick(3200u32, 40_000u32);
+    let cases = ctx.share(ctx.tier.pick(3200u32, 40_000u32)).max(16);
     let nshards = 16;
     crate::engine::shards(nshards, |i| {
         let ip = format!("127.0.11.{}", 1 + i);
         pt::run(
             ctx,
             "session",
-            pt::Opts::new(cases / nshards as u32).salt(1100 + i as u64).shrink_iters(20),
+            pt::Opts::new(cases / nshards as u32).salt(ctx.salt_of(1100 + i as u64)).shrink_iters(20),
             arb_case(),
             |c| serde_json::to_value(c).unwrap(),
             |c| {
